@@ -60,11 +60,18 @@ def Err.message : Err → Str
   | .fail .nilDeref => s%"<nil pointer dereference>"
   | .fail .sliceBounds => s%"<slice bounds out of range>"
 
+/-- split at the first `:` (`strings.SplitN(s, ":", 2)`) -/
+def splitAtColon : Str → Str × Option Str
+  | [] => ([], none)
+  | c :: cs =>
+    if c = ':' then ([], some cs)
+    else ((c :: (splitAtColon cs).1), (splitAtColon cs).2)
+
 /-- moq.go `parseInterfaceName`: `strings.SplitN(namePair, ":", 2)`. -/
 def parseInterfaceName (np : Str) : Str × Str :=
-  match np.span (· ≠ ':') with
-  | (a, []) => (a, a ++ s%"Mock")
-  | (a, _ :: b) => (a, b)
+  match splitAtColon np with
+  | (a, none) => (a, a ++ s%"Mock")
+  | (a, some b) => (a, b)
 
 /- ---------- phase 1: allocation (threads the registry) ---------- -/
 
@@ -84,17 +91,18 @@ structure MockAlloc where
 deriving Repr, Inhabited
 
 def addVars (o : Ord) (fuel : Nat) (suffix : Str) :
-    List Str → List Ty → Registry → Scope → Except Fail (Registry × Scope)
-  | _, [], r, sc => .ok (r, sc)
-  | ns, t :: ts, r, sc => do
-    let (r1, sc1) ← addVar o fuel r sc (ns.headD []) t suffix
-    addVars o fuel suffix ns.tail ts r1 sc1
+    List (Str × Ty) → Registry → Scope → Except Fail (Registry × Scope)
+  | [], r, sc => .ok (r, sc)
+  | (n, t) :: rest, r, sc =>
+    match addVar o fuel r sc n t suffix with
+    | .error f => .error f
+    | .ok (r1, sc1) => addVars o fuel suffix rest r1 sc1
 
 /-- moq.go `methodData`. -/
 def methodAlloc (o : Ord) (fuel : Nat) (r : Registry) (m : MethodIn) :
     Except Fail (Registry × MethodAlloc) := do
-  let (r1, sc1) ← addVars o fuel [] m.pnames m.ptys r {}
-  let (r2, sc2) ← addVars o fuel outSuffix m.rnames m.rtys r1 sc1
+  let (r1, sc1) ← addVars o fuel [] (m.pnames.zip m.ptys) r {}
+  let (r2, sc2) ← addVars o fuel outSuffix (m.rnames.zip m.rtys) r1 sc1
   pure (r2, { name := m.name, vars := sc2.vars, nparams := m.ptys.length, variadic := m.variadic })
 
 def methodsAlloc (o : Ord) (fuel : Nat) : Registry → List MethodIn →
@@ -109,7 +117,7 @@ def methodsAlloc (o : Ord) (fuel : Nat) : Registry → List MethodIn →
     typed by its constraint. -/
 def tparamsAlloc (o : Ord) (fuel : Nat) (r : Registry) (tps : List TParamIn) :
     Except Fail (Registry × List Var) := do
-  let (r1, sc) ← addVars o fuel [] (tps.map (·.name)) (tps.map (·.constraint)) r {}
+  let (r1, sc) ← addVars o fuel [] (tps.map fun t => (t.name, t.constraint)) r {}
   pure (r1, sc.vars)
 
 def mocksAlloc (o : Ord) (fuel : Nat) (scope : List (Str × Obj)) :
@@ -246,23 +254,35 @@ structure Alloc where
   srcPkgQualifier : Str
 deriving Repr, Inhabited
 
+/-- `if data.MocksSomeMethod() { AddImport(sync) }` -/
+def addSync (o : Ord) (fuel : Nat) (r : Registry) (mocks : List MockAlloc) : Option Registry :=
+  if mocks.any (fun m => !m.methods.isEmpty) then
+    (addImport o fuel r ⟨s%"sync", s%"sync"⟩).map (·.1)
+  else some r
+
+/-- the source-package qualifier of the self-check line, importing the source package unless
+    `-skip-ensure` (moq.go: `if m.registry.SrcPkgName() != m.mockPkgName() { … }`) -/
+def addSrc (o : Ord) (fuel : Nat) (inp : Input) (r : Registry) : Option (Registry × Str) :=
+  if inp.srcName ≠ mockPkgName inp then
+    if !inp.skip then
+      (addImport o fuel r ⟨inp.srcPath, inp.srcName⟩).map fun (r', res) =>
+        (r', (match res with | some p => r'.qualOf p | none => []) ++ s%".")
+    else some (r, inp.srcName ++ s%".")
+  else some (r, [])
+
 /-- `moq.New` + `Mocker.Mock` up to (not including) rendering. -/
 def genAlloc (o : Ord) (fuel : Nat) (inp : Input) : Except Err Alloc :=
   if inp.args.isEmpty then .error .noArgs
-  else do
-    let (r1, mocks) ← mocksAlloc o fuel inp.scope (initRegistry inp) inp.args
-    let some r2 := (if mocks.any (fun m => !m.methods.isEmpty)
-                    then (addImport o fuel r1 ⟨s%"sync", s%"sync"⟩).map (·.1) else some r1)
-      | .error (.fail .diverge)
-    let some (r3, q) :=
-      (if inp.srcName ≠ mockPkgName inp then
-        if !inp.skip then
-          (addImport o fuel r2 ⟨inp.srcPath, inp.srcName⟩).map fun (r, res) =>
-            (r, (match res with | some p => r.qualOf p | none => []) ++ s%".")
-        else some (r2, inp.srcName ++ s%".")
-       else some (r2, []))
-      | .error (.fail .diverge)
-    pure { reg := r3, mocks := mocks, srcPkgQualifier := q }
+  else
+    match mocksAlloc o fuel inp.scope (initRegistry inp) inp.args with
+    | .error e => .error e
+    | .ok (r1, mocks) =>
+      match addSync o fuel r1 mocks with
+      | none => .error (.fail .diverge)
+      | some r2 =>
+        match addSrc o fuel inp r2 with
+        | none => .error (.fail .diverge)
+        | some (r3, q) => .ok { reg := r3, mocks := mocks, srcPkgQualifier := q }
 
 def Alloc.toData (inp : Input) (a : Alloc) : Data :=
   { pkgName := mockPkgName inp, srcPkgQualifier := a.srcPkgQualifier
